@@ -303,6 +303,9 @@ func (in *Interp) safe(s *State, fn func() []*State) (forks []*State) {
 					fmt.Fprintln(os.Stderr, "UNSUPPORTED:", e.msg, in.where(s))
 				}
 			case goPanic:
+				if in.cfg.Verbose {
+					fmt.Fprintln(os.Stderr, "GO PANIC:", e.msg, in.where(s))
+				}
 				in.raise(s, s.thread(), e)
 			case needInit:
 				s.inited[e.pkg] = true
@@ -623,6 +626,11 @@ func (in *Interp) load(s *State, p *Ptr) Value {
 			in.unsup("load: path into non-aggregate %T", v)
 		}
 		if e.Sym != nil {
+			if i == len(p.Path)-1 {
+				if r := in.tableLookup(a, e.Sym); r != nil {
+					return r
+				}
+			}
 			// merge over elements, then continue with the rest of the path on the merged value
 			var r Value
 			for j := len(a.Elems) - 1; j >= 0; j-- {
@@ -641,6 +649,45 @@ func (in *Interp) load(s *State, p *Ptr) Value {
 		v = a.Elems[e.Idx]
 	}
 	return v
+}
+
+// tableLookup encodes a[idx] for an aggregate of scalar terms as an ite chain over maximal
+// runs of identical elements (tables such as utf8.first have few runs).
+func (in *Interp) tableLookup(a *Agg, idx *term.Term) Value {
+	n := len(a.Elems)
+	if n == 0 {
+		return nil
+	}
+	for _, e := range a.Elems {
+		if _, ok := e.(*term.Term); !ok {
+			return nil
+		}
+	}
+	type run struct {
+		lo, hi int
+		v      *term.Term
+	}
+	var runs []run
+	for j := 0; j < n; j++ {
+		t := a.Elems[j].(*term.Term)
+		if len(runs) > 0 && runs[len(runs)-1].v == t {
+			runs[len(runs)-1].hi = j
+		} else {
+			runs = append(runs, run{j, j, t})
+		}
+	}
+	r := runs[len(runs)-1].v
+	for k := len(runs) - 2; k >= 0; k-- {
+		ru := runs[k]
+		var c *term.Term
+		if ru.lo == ru.hi {
+			c = in.ts.Eq(idx, in.ts.Const(64, uint64(ru.lo)))
+		} else {
+			c = in.ts.And(in.ts.Ule(in.ts.Const(64, uint64(ru.lo)), idx), in.ts.Ule(idx, in.ts.Const(64, uint64(ru.hi))))
+		}
+		r = in.ts.Ite(c, ru.v, r)
+	}
+	return r
 }
 
 func (in *Interp) walk(v Value, path []PathElem) Value {
@@ -819,7 +866,7 @@ func (in *Interp) globalPtr(s *State, g *ssa.Global) *Ptr {
 var noInit = map[string]bool{
 	"runtime": true, "unicode": true, "os": true, "syscall": true, "reflect": true, "internal/reflectlite": true,
 	"time": true, "sync": true, "sync/atomic": true, "internal/godebug": true, "internal/poll": true,
-	"unicode/utf8": true, "internal/bytealg": true, "internal/cpu": true, "math": true, "fmt": true, "log": true,
+	"internal/bytealg": true, "internal/cpu": true, "math": true, "fmt": true, "log": true,
 	"context": true, "net": true, "math/rand": true, "math/rand/v2": true, "internal/oserror": true, "io/fs": true,
 }
 
